@@ -152,7 +152,16 @@ class Builder(NullCell):
         i = self.available_bytes
         if len(value) <= i:
             return self.store_bytes(value)
-        return self.store_bytes(value[:i]).store_ref(Builder().store_snake_bytes(value[i:]).end_cell())
+        # the tail cells are built from the last chunk backwards: a loop, so that a long string (a chain of up to
+        # 1023 cells) does not exhaust the interpreter's recursion limit
+        chunk = Builder().available_bytes
+        tail = None
+        for k in reversed(range(i, len(value), chunk)):
+            cell_builder = Builder().store_bytes(value[k:k + chunk])
+            if tail is not None:
+                cell_builder.store_ref(tail)
+            tail = cell_builder.end_cell()
+        return self.store_bytes(value[:i]).store_ref(tail)
 
     def store_snake_string(self, value: str, need_prefix: bool = False):
         value = value.encode()
